@@ -42,7 +42,7 @@ ASSUMPTIONS = [
 
 
 def run_lean_unit(lines):
-    return core.run_lean(lines, main="Driver/Main_State.lean")
+    return core.run_lean(lines)
 
 
 # ----------------------------------------------------------------------------- the alphabet
